@@ -24,6 +24,10 @@ package tcp
 //@   ensures nopanic
 //@   loop 1 decreases len(data)
 //@   loop 2 decreases len(d)
+//@   // framing: every turn of the extension loop consumes exactly one extension - its 4-byte header and the number
+//@   // of bytes the header declares; every turn of the name loop that continues consumes one 3-byte header and its name
+//@   loop 1 iteration ensures off(data) - old(off(data)) == 4 + be16(old(data), 2) && ref(data) == old(ref(data))
+//@   loop 2 iteration ensures off(d) - old(off(d)) == 3 + be16(old(d), 1) && ref(d) == old(ref(d))
 //@
 //@ func readServerName
 //@   props C10
